@@ -10,8 +10,10 @@ driver (shared by the C01/C02/C03 drivers).  Grammar (tokens separated by blanks
            | ( case expr ( ( (label*) block )* ) block )
            | ( for x expr expr step block )      step ::= - | expr
            | ( while expr block ) | ( repeat block expr ) | ( exit ) | ( cont ) | ( ret )
+           | ( asgi a expr expr ) | ( asgf s f expr )                       (stage S3)
   label  ::= ( s T v ) | ( r T v T v )           T ::= - | SINT | INT | …
   expr   ::= ( l T v ) | ( t ) | ( f ) | ( v x ) | ( u op expr ) | ( b op expr expr )
+           | ( idx a expr ) | ( fld s f )                                   (stage S3)
 -/
 namespace TrustVerif.Drv.St
 open TrustVerif.StCore
@@ -76,6 +78,10 @@ partial def toExpr : SExp → Option Expr
     let l' ← toExpr l
     let r' ← toExpr r
     pure (.bin o l' r')
+  | .list [.atom "fld", .atom c, .atom f] => some (.fld c f)
+  | .list [.atom "idx", .atom a, i] => do
+    let i' ← toExpr i
+    pure (.idx a i')
   | _ => none
 
 def toLabLit (t v : String) : Option LabLit := do
@@ -96,6 +102,13 @@ partial def toStmt : SExp → Option Stmt
   | .list [.atom "asg", .atom x, e] => do
     let e' ← toExpr e
     pure (.assign x e')
+  | .list [.atom "asgi", .atom a, i, e] => do
+    let i' ← toExpr i
+    let e' ← toExpr e
+    pure (.assignIdx a i' e')
+  | .list [.atom "asgf", .atom sv, .atom f, e] => do
+    let e' ← toExpr e
+    pure (.assignFld sv f e')
   | .list [.atom "if", c, t, .list elifs, el] => do
     let c' ← toExpr c
     let t' ← toBlock t
